@@ -9,6 +9,8 @@ import (
 	"runtime"
 	"strconv"
 	"strings"
+	"sync/atomic"
+	"time"
 
 	"github.com/moov-io/iso8583/encoding"
 	"github.com/moov-io/iso8583/field"
@@ -97,8 +99,43 @@ func Padder(kind, c string) (padding.Padder, bool) {
 	return nil, false
 }
 
-// Run executes a line; panics are caught and reported as "panic".
+// hangs counts the calls that did not return within their limit (a deadlock in the implementation,
+// an endless loop): each leaves a goroutine behind, and after a few of them the limits shrink so that
+// a stream of thousands of lines that all hang still ends in minutes.
+var hangs atomic.Int32
+
+// RunLimit: how long one protocol line may take before its result is "hang"
+func RunLimit() time.Duration {
+	if hangs.Load() >= 5 {
+		return 150 * time.Millisecond
+	}
+	return 20 * time.Second
+}
+
+// Run executes a line; panics are caught and reported as "panic", a call that does not return as "hang".
+// Channel W lines carry their own (shorter) limit; the fast channels of the layers (E, P, D, B) run
+// straight, everything that goes through fields, messages or specs under the watchdog.
 func Run(line string) (res string) {
+	if len(line) > 1 && line[1] == ' ' {
+		switch line[0] {
+		case 'E', 'P', 'D', 'B', 'O', 'N':
+			return runDirect(line)
+		}
+	}
+	done := make(chan string, 1)
+	go func() { done <- runDirect(line) }()
+	timer := time.NewTimer(RunLimit())
+	defer timer.Stop()
+	select {
+	case r := <-done:
+		return r
+	case <-timer.C:
+		hangs.Add(1)
+		return "hang"
+	}
+}
+
+func runDirect(line string) (res string) {
 	defer func() {
 		if r := recover(); r != nil {
 			res = "panic"
